@@ -18,6 +18,12 @@ error paths of an operation that has already touched the document (move removes 
 Generator (4): index magnitude: array reference tokens j + k * 2^w (w = 32, 63, 64, 65, 128) aliasing
 an existing index / the length, in path and from of every operation kind, at any depth of the pointer.
 
+Generator (5): small scope, exhaustive (itertools.product): every single operation over 12 paths x 4
+values on three tiny documents in both modes, every operation object over the field alphabets
+{absent, null, number, strings} for op/path/from/value, every patch of two operations over 7 paths x
+2 values (147 operations, 21 609 patches) on two documents; thorough tier: three documents x both modes, and
+every patch of three operations over 4 paths x 1 value (48 operations, 110 592 patches).
+
 Direct oracle: the RFC 6902 evaluator below, written from the RFC in this file (it shares nothing
 with json-c or the Coq model), plus: patch document unchanged, copy source unchanged, no node
 shared between the result and the patch document / the source / two places of the result, no
@@ -988,6 +994,84 @@ def extra_coverage():
     return {"operation_mix_of_wellformed_cases": dict(sorted(OPMIX.items()))}
 
 
+# ------------------------------------------------------------------ small scope, exhaustive
+# Every patch up to a small bound over a small alphabet of operations in which each element
+# selects a different branch of json_patch.c / json_pointer.c:
+#   paths   ""  root | member | element | "-" | index = length | index beyond | new member | below a
+#           JSON null | bad index | no leading '/' | bad escape
+#   values  null | 1 | 1.0 (the other numeric representation) | a container to work inside later
+#   kinds   add replace test (x path x value), remove (x path), move copy (x from x path)
+# plus every operation OBJECT over {absent, null, number, valid string, other string} for each of
+# op / path / from / value (the field-handling branches).
+SS_DOCS = [("o", [(b"a", [("i", 1)]), (b"b", None)]),                       # {"a":[1],"b":null}
+           [[("i", 1)], ("o", [(b"a", ("i", 2))])],                         # [[1],{"a":2}]
+           ("o", [(b"a/b", ("o", [(b"~", ("i", 1))])), (b"a", [])])]        # {"a/b":{"~":1},"a":[]}
+SS_PATHS_1 = {0: [b"", b"/a", b"/a/0", b"/a/1", b"/a/2", b"/a/-", b"/b", b"/x", b"/b/c", b"/a/x", b"x", b"/a~"],
+              1: [b"", b"/0", b"/0/0", b"/0/1", b"/2", b"/3", b"/-", b"/1/a", b"/1/x", b"/01", b"0", b"/1/~"],
+              2: [b"", b"/a~1b", b"/a~1b/~0", b"/a~1b/~", b"/a", b"/a/0", b"/a/-", b"/a/1", b"/a~1", b"/a~0b", b"a", b"/a~1b/x"]}
+SS_VALUES_1 = [None, ("i", 1), ("d", jvtext.dbits(1.0), None), ("o", [(b"k", [])])]
+SS_PATHS_2 = {0: [b"", b"/a", b"/a/0", b"/a/-", b"/b", b"/x", b"x"],
+              1: [b"", b"/0", b"/0/0", b"/0/-", b"/1", b"/1/x", b"0"],
+              2: [b"", b"/a~1b", b"/a~1b/~0", b"/a/-", b"/a", b"/a~1", b"/m~0n"]}
+SS_VALUES_2 = [None, ("o", [(b"k", [])])]
+SS_PATHS_3 = [b"", b"/a", b"/a/0", b"/x"]
+SS_VALUES_3 = [("o", [(b"k", [])])]
+
+
+def ss_ops(paths, values):
+    ops = []
+    for p in paths:
+        for v in values:
+            ops.append(mk_op(b"add", p, value=v))
+            ops.append(mk_op(b"replace", p, value=v))
+            ops.append(mk_op(b"test", p, value=v))
+        ops.append(mk_op(b"remove", p))
+        for f in paths:
+            ops.append(mk_op(b"move", p, **{"from": f}))
+            ops.append(mk_op(b"copy", p, **{"from": f}))
+    return ops
+
+
+def gen_small_scope(tier):
+    import itertools
+    out = []
+    meta = {"kind": "small-scope"}
+    # every single operation, three documents, both modes
+    for di, doc in enumerate(SS_DOCS):
+        for o in ss_ops(SS_PATHS_1[di], SS_VALUES_1):
+            for m in "ic":
+                out.append((mk_line(m, doc, [o]), meta))
+    # every operation object over the field alphabets
+    absent = object()
+    F_OP = [absent, None, ("i", 5), b"add", b"test", b"remove", b"move", b"copy", b"bogus"]
+    F_PATH = [absent, None, ("i", 5), b"/a", b""]
+    F_FROM = [absent, None, ("i", 5), b"/a", b""]
+    F_VALUE = [absent, None]
+    for fo, fp, ff, fv in itertools.product(F_OP, F_PATH, F_FROM, F_VALUE):
+        ms = [(k, v) for k, v in ((b"op", fo), (b"path", fp), (b"from", ff), (b"value", fv)) if v is not absent]
+        out.append((mk_line("ic"[len(out) % 2], SS_DOCS[0], [("o", ms)]), meta))
+    for elem in (None, True, ("i", 0), b"add", [], [b"op"], ("o", [])):
+        for m in "ic":
+            out.append((mk_line(m, SS_DOCS[0], [elem]), meta))
+            out.append((mk_line(m, SS_DOCS[0], [mk_op(b"add", b"/x", value=None), elem, mk_op(b"remove", b"/a")]), meta))
+    # every patch of two operations
+    for di in ((0, 1) if tier == "quick" else (0, 1, 2)):
+        doc = SS_DOCS[di]
+        ops2 = ss_ops(SS_PATHS_2[di], SS_VALUES_2)
+        for k, (o1, o2) in enumerate(itertools.product(ops2, ops2)):
+            if tier == "quick":
+                out.append((mk_line("ic"[k % 2], doc, [o1, o2]), meta))
+            else:
+                out.append((mk_line("i", doc, [o1, o2]), meta))
+                out.append((mk_line("c", doc, [o1, o2]), meta))
+    # thorough: every patch of three operations over a smaller alphabet
+    if tier != "quick":
+        ops3 = ss_ops(SS_PATHS_3, SS_VALUES_3)
+        for k, seq in enumerate(itertools.product(ops3, repeat=3)):
+            out.append((mk_line("ic"[k % 2], SS_DOCS[0], list(seq)), meta))
+    return out
+
+
 def gen(rng, tier):
     n = 8000 if tier == "quick" else 150000
     out = []
@@ -997,6 +1081,7 @@ def gen(rng, tier):
     # a JSON null target, a non-array patch
     out.append((mk_line("i", None, J([{"op": "add", "path": "", "value": 1}])), {"kind": "null-target"}))
     out.append((mk_line("c", None, J([])), {"kind": "null-target"}))
+    out += gen_small_scope(tier)
     out += gen_shapes_exhaustive()
     for ci in range(n // 6):
         doc, patch = gen_shapes_random(rng)
